@@ -36,13 +36,24 @@ example : findCycleG [⟨[], [97]⟩, ⟨[], [98]⟩] (fun l => if l = ⟨[], [9
 theorem clean_normal_form (p : Bytes) (h : isAbs p = false) : clean (clean p) = clean p :=
   Paths.clean_normal_form h
 
-/-- the string-prefix test `pathWithin` on cleaned relative paths is containment of component lists -/
+/-- the string-prefix test `pathWithin` on resolved (rooted, cleaned) paths is the prefix relation on components -/
 theorem within_iff_prefix (p d : List Bytes) (hp : CompsOK p) (hd : CompsOK d) :
-    pathWithin true (renderRel p) (renderRel d) = true ↔ Inside p d :=
-  Paths.within_iff_prefix hp hd
+    pathWithin true true (renderAbs p) (renderAbs d) = true ↔ d <+: p :=
+  Paths.within_abs_iff hp hd
 
-example : CompsOK [[100], [120]] ∧ CompsOK [[100]] ∧ Inside [[100], [120]] [[100]] := by
-  refine ⟨by unfold CompsOK; decide, by unfold CompsOK; decide, ⟨[[120]], rfl⟩, by simp⟩
+example : CompsOK [[100], [120]] ∧ CompsOK [[100]] ∧ ([[100]] : List Bytes) <+: [[100], [120]] := by
+  refine ⟨by unfold CompsOK; decide, by unfold CompsOK; decide, ⟨[[120]], rfl⟩⟩
+
+/-- what overlaps are decided on — `filepath.Join(root, cleanOutputPath(target, out))` — is the printed form of the
+    output's components resolved from the workspace root: `x` and `../<rootname>/x` get the same string -/
+theorem resolved_path_spec (ws pkg ident : Bytes) (hws : isAbs ws = true) (hp : isAbs pkg = false)
+    (hi : isAbs ident = false) :
+    resolvedOutputPath ws pkg ident =
+      renderAbs (normComps true (splitSlash ws ++ (splitSlash pkg ++ splitSlash ident))) :=
+  resolvedOutputPath_abs hws hp hi
+
+example : resolvedOutputPath [47, 119, 47, 115] [] [120] = resolvedOutputPath [47, 119, 47, 115] [] [46, 46, 47, 115, 47, 120] := by
+  decide
 
 /-- the code's "ordered by dependency" test is reachability along dependencies, one way or the other -/
 theorem ordered_iff (ns : List Node) (hnd : NoDuplicate ns) (hdef : DepsDefined ns) (a b : Label) :
@@ -60,14 +71,16 @@ example : CacheOK [] [] := cacheOK_nil []
 
 /-- the memo table of `getAncestorSet` never changes an answer: conflict detection with the table
     (what the code does, `hasConflictC`) equals conflict detection without it -/
-theorem ancestorCache_transparent (ns : List Node) (hnd : NoDuplicate ns) (hdef : DepsDefined ns) (cfg : Cfg) :
-    hasConflictC cfg ns = hasConflict cfg ns :=
-  hasConflictC_eq hnd hdef cfg
+theorem ancestorCache_transparent (ns : List Node) (hnd : NoDuplicate ns) (hdef : DepsDefined ns) (cfg : Cfg)
+    (ws : Bytes) :
+    hasConflictC cfg ws ns = hasConflict cfg ws ns :=
+  hasConflictC_eq hnd hdef cfg ws
 
 /-- conflict detection ⇔ there are two different targets, unordered, with overlapping outputs -/
-theorem conflict_iff (ns : List Node) (hnd : NoDuplicate ns) (hdef : DepsDefined ns) (hrel : RelOuts ns) :
-    hasConflictC Cfg.current ns = true ↔ Conflict ns := by
-  rw [hasConflictC_eq hnd hdef]; exact hasConflict_iff hnd hdef hrel
+theorem conflict_iff (ws : Bytes) (hws : isAbs ws = true) (ns : List Node) (hnd : NoDuplicate ns)
+    (hdef : DepsDefined ns) (hrel : RelOuts ns) :
+    hasConflictC Cfg.current ws ns = true ↔ Conflict ws ns := by
+  rw [hasConflictC_eq hnd hdef]; exact hasConflict_iff hws hnd hdef hrel
 
 /-! ### the property -/
 
@@ -82,7 +95,7 @@ theorem accepts_iff_valid (ws : Bytes) (ps : List Pkg) (hws : isAbs ws = true) (
     simp only
     constructor
     · intro h
-      cases hg : buildGraph Cfg.current (allNodes ps) with
+      cases hg : buildGraph Cfg.current ws (allNodes ps) with
       | some k => simp [hg] at h
       | none =>
         simp only [hg] at h
@@ -91,12 +104,12 @@ theorem accepts_iff_valid (ws : Bytes) (ps : List Pkg) (hws : isAbs ws = true) (
         | nil =>
           have hout := constraintErrors_nil_outputs hws hc
           have hrel := relOuts_of_outputs hpk hout
-          obtain ⟨hdef, hnc, hcf⟩ := (buildGraph_none_iff hnd hrel).mp hg
+          obtain ⟨hdef, hnc, hcf⟩ := (buildGraph_none_iff hws hnd hrel).mp hg
           obtain ⟨h1, h2, h3, h4⟩ := (constraintErrors_nil hws hnd hnc).mp hc
           exact ⟨⟨hnd, hdef, hnc, hcf, h1, h2, h4⟩, h3⟩
     · rintro ⟨⟨_, hdef, hnc, hcf, h1, h2, h4⟩, h3⟩
       have hrel := relOuts_of_outputs hpk h2
-      rw [(buildGraph_none_iff hnd hrel).mpr ⟨hdef, hnc, hcf⟩]
+      rw [(buildGraph_none_iff hws hnd hrel).mpr ⟨hdef, hnc, hcf⟩]
       simp only
       rw [(constraintErrors_nil hws hnd hnc).mpr ⟨h1, h2, h3, h4⟩]
   · rw [hb]
@@ -183,7 +196,7 @@ theorem reject_names_present_defect (ws : Bytes) (ps : List Pkg) (hws : isAbs ws
   rcases buildNodeMap_spec ps with ⟨hb, hnd⟩ | ⟨hb, hnd⟩
   · rw [hb] at h
     simp only at h
-    cases hg : buildGraph Cfg.current (allNodes ps) with
+    cases hg : buildGraph Cfg.current ws (allNodes ps) with
     | some k' =>
       simp only [hg, Verdict.reject.injEq] at h
       subst h
@@ -218,7 +231,7 @@ theorem reject_names_present_defect (ws : Bytes) (ps : List Pkg) (hws : isAbs ws
                 cases hh : isAbs o.ident
                 · rfl
                 · exact absurd ⟨t, ht, o, ho, hk, hh⟩ habs
-              exact .inl ((conflict_iff _ hnd hdef hrel).mp hcf)
+              exact .inl ((conflict_iff ws hws _ hnd hdef hrel).mp hcf)
           · cases hg
         · intro _ hf; exact hf.elim
     | none =>
@@ -274,6 +287,14 @@ theorem old_rejects_self_overlap :
 theorem old_accepts_escaping_glob :
     let ps : List Pkg := [⟨[⟨⟨[112], [97]⟩, [], [], [[46, 46, 47, 42, 46, 99]], [], false, true⟩], []⟩]
     analyzeOld exWs ps = .accept ∧ analyze exWs ps = .reject .inputEscape := by decide
+
+/-- F-reenter: two unordered targets writing `x` and `../s/x` in the workspace `/w/s` — the same file — were accepted
+    (overlaps were decided on the path as spelled, not on the resolved location) -/
+theorem old_accepts_reentering_overlap :
+    let ws : Bytes := [47, 119, 47, 115]
+    let ps : List Pkg := [⟨[⟨⟨[], [97]⟩, [], [], [], [⟨.file, [120]⟩], false, true⟩,
+                            ⟨⟨[], [98]⟩, [], [], [], [⟨.file, [46, 46, 47, 115, 47, 120]⟩], false, true⟩], []⟩]
+    analyzeOld ws ps = .accept ∧ analyze ws ps = .reject .conflict := by decide
 
 /-- F-dotdir: `dir::.` and a file below it, declared by unordered targets, were accepted -/
 theorem old_accepts_dot_overlap :
